@@ -45,3 +45,19 @@ package crosscompile
 //@ at_call os.Create requires confined: pathok(strrank(name), strrank(dest))
 //@ loop 1 invariant range: -1 <= rangeindex && rangeindex < 1<<40
 //@ modifies everything
+
+// .tar.xz archives are handed to the external tar program. Confinement then
+// rests on GNU tar's defaults (member names made relative, ".." refused,
+// unsafe symlinks deferred), which hold only for this exact invocation: any
+// other option string (-P / --absolute-names in particular) voids the trusted
+// assumption, so the argument vector is pinned.
+
+//@ func extractTarXz
+//@ params tarXzFile dest
+//@ props C20
+//@ effects os:
+//@ effects os/exec: Command, Cmd.Run
+//@ effects syscall:
+//@ effects io/ioutil:
+//@ at_call exec.Command requires pinned-tar-invocation: name == "tar" && len(arg) == 4 && arg[0] == "-xf" && arg[1] == tarXzFile && arg[2] == "-C" && arg[3] == dest
+//@ modifies everything
